@@ -24,6 +24,7 @@ class Body:
         self._ipdom = None
         self._rpo = None
         self.prog = prog
+        _desugar_replace(self)
 
     # ------------------------------------------------------------ meta
     @property
@@ -219,6 +220,59 @@ class Body:
                 continue
             for k, s in enumerate(b["s"]):
                 yield i, k, s
+
+
+def _desugar_replace(body):
+    """`std::mem::replace(&mut PLACE, v)` is `old = PLACE; PLACE = v; old` — rewritten into those two assignments (the
+    call terminator becomes a goto) when the `&mut` argument is a reborrow chain of a place of this body defined in
+    the same block.  A test-and-set written with `mem::replace(&mut seen[i], true)` then reads like
+    `if seen[i] { .. } else { seen[i] = true; .. }` to every analysis."""
+    for blk in body.blocks:
+        t = blk.get("t") or {}
+        if t.get("k") != "call" or t.get("t") is None:
+            continue
+        cal = t.get("resolved") or t.get("callee") or ""
+        if not (cal.endswith("mem::replace") and len(t.get("args", [])) == 2):
+            continue
+        a0 = t["args"][0]
+        if a0.get("k") not in ("move", "copy") or a0["p"]["pr"]:
+            continue
+        # follow `_a = &mut (*_b)`, `_b = &mut PLACE` inside this block
+        cur = a0["p"]["l"]
+        place = None
+        for _ in range(4):
+            d = [st for st in blk["s"] if st["k"] == "assign" and not st["p"]["pr"] and st["p"]["l"] == cur]
+            if len(d) != 1 or d[0]["rv"]["k"] != "ref" or not d[0]["rv"].get("m"):
+                break
+            pl = d[0]["rv"]["p"]
+            if len(pl["pr"]) == 1 and pl["pr"][0].get("k") == "deref":
+                cur = pl["l"]
+                continue
+            if not any(e.get("k") == "deref" for e in pl["pr"]):
+                place = pl
+            break
+        if place is None or not t.get("dest"):
+            continue
+        line = t.get("line")
+        read = {"k": "assign", "p": t["dest"], "rv": {"k": "use", "o": {"k": "copy", "p": place}}, "line": line}
+        store = {"k": "assign", "p": place, "rv": {"k": "use", "o": t["args"][1]}, "line": line}
+        # test-and-set: `if mem::replace(&mut flag, true) { A } else { B }` — on the true edge the flag already holds
+        # `true`, so the store only matters on the false edge: the same as `if flag { A } else { flag = true; B }`
+        nxt = body.blocks[t["t"]] if 0 <= t["t"] < len(body.blocks) else None
+        v = t["args"][1]
+        d = t["dest"]
+        if (nxt is not None and not nxt["s"] and nxt["t"].get("k") == "switch" and v.get("k") == "const" and v.get("v") in (True, 1)
+                and nxt["t"]["d"].get("k") in ("move", "copy") and nxt["t"]["d"]["p"] == d and not d["pr"]
+                and body.locals[d["l"]]["ty"].get("k") == "bool" and len(nxt["t"]["vs"]) == 1 and nxt["t"]["vs"][0][0] == 0):
+            false_bb = nxt["t"]["vs"][0][1]
+            npred = sum(1 for b2 in body.blocks for x in term_succ(b2["t"]) if x == false_bb)
+            if npred == 1:
+                blk["s"] = list(blk["s"]) + [read]
+                blk["t"] = {"k": "goto", "t": t["t"], "line": line}
+                body.blocks[false_bb]["s"] = [store] + list(body.blocks[false_bb]["s"])
+                continue
+        blk["s"] = list(blk["s"]) + [read, store]
+        blk["t"] = {"k": "goto", "t": t["t"], "line": line}
 
 
 def term_succ(t):
@@ -420,7 +474,11 @@ def load(repo=None):
     fdir = build.facts_dir(repo)
     if fdir in _PROG_CACHE:
         return _PROG_CACHE[fdir]
-    pk = os.path.join(fdir, "program.pickle")
+    # the pickle holds the *loaded* program (with this module's rewrites applied): key it by this module's source
+    import hashlib
+    with open(__file__.replace(".pyc", ".py"), "rb") as fh_:
+        ver = hashlib.sha1(fh_.read()).hexdigest()[:10]
+    pk = os.path.join(fdir, "program.%s.pickle" % ver)
     prog = None
     if os.path.exists(pk):
         try:
